@@ -1,12 +1,16 @@
 #!/bin/bash
 # run_mut.sh <patch.diff> <tier> <check id>... : apply a seeded change to /repo, run the checks, undo it.
-# Prints one line per check: <id> rc=<exit code>.  /repo is restored even on failure.
+# Prints one line per check: <id> rc=<exit code>.  /repo is restored (git reset --hard HEAD) on exit.
 patch=$1; tier=$2; shift 2
 cd /repo || exit 2
-if ! git diff --quiet; then echo "/repo has uncommitted changes; refusing" >&2; exit 2; fi
-git apply -3 "$patch" 2>/dev/null || git apply "$patch" || { echo "patch does not apply" >&2; exit 2; }
-git reset -q 2>/dev/null
-trap 'git -C /repo checkout -q -- . ' EXIT
+if [ -n "$(git status --porcelain --untracked-files=no)" ]; then echo "/repo has uncommitted changes; refusing" >&2; exit 2; fi
+trap "git -C /repo reset -q --hard HEAD" EXIT
+if ! git apply "$patch" 2>/dev/null; then
+  git apply -3 "$patch" >/dev/null 2>&1
+  if [ -n "$(git diff --name-only --diff-filter=U)" ] || grep -q '^<<<<<<<' diskcache/*.py; then echo "patch conflicts with the current tree" >&2; exit 2; fi
+  git reset -q
+fi
+if git diff --quiet; then echo "patch did not change anything" >&2; exit 2; fi
 cd /verif
 for id in "$@"; do
   ./check $id --tier $tier > /tmp/mut-$id.log 2>&1; rc=$?
